@@ -112,8 +112,10 @@ func roundTrip(recs []any) {
 		names[i] = recName(r)
 	}
 	seq := strings.Join(names, ",")
+	held := make([]any, len(recs))
 	for i, r := range recs {
 		typ, got, err := transfer.VerifReadControlMessage(&m)
+		held[i] = got
 		if err != nil {
 			res.Violate("mismatch", "c18/roundtrip", map[string]any{"record": recName(r), "field": "decode-error", "class": strClass(recStrings(r)...), "seq": len(recs) > 1},
 				fmt.Sprintf("record %d of [%s] %s: decode error %v", i, seq, brief(r), err), nil)
@@ -130,6 +132,19 @@ func roundTrip(recs []any) {
 		if ok, field := eqRecord(r, got); !ok {
 			res.Violate("mismatch", "c18/roundtrip", map[string]any{"record": recName(r), "field": field, "class": strClass(recStrings(r)...), "seq": len(recs) > 1},
 				fmt.Sprintf("record %d of [%s]: wrote %s, read %s", i, seq, brief(r), brief(got)), nil)
+			return
+		}
+	}
+	// the sequence as a whole: every decoded value is still what was written once the later records
+	// have been decoded too (a decoder that hands out memory it reuses passes the per-record
+	// comparison above)
+	for i, r := range recs {
+		if r == nil {
+			continue
+		}
+		if ok, field := eqRecord(r, held[i]); !ok {
+			res.Violate("mismatch", "c18/roundtrip", map[string]any{"record": recName(r), "field": "held:" + field, "class": strClass(recStrings(r)...), "seq": true},
+				fmt.Sprintf("record %d of [%s]: equal to what was written when decoded, but %s once the following records had been decoded (wrote %s)", i, seq, brief(held[i]), brief(r)), nil)
 			return
 		}
 	}
@@ -345,6 +360,32 @@ func main() {
 					res.Nontrivial(fmt.Sprint("T|", i, j, k))
 					res.SampleSpread(int64(n), []string{brief(a), brief(b), brief(c)})
 				}
+			}
+		}
+	}
+	// sequences of byte-carrying records that differ only in their payload: the receiver's resume
+	// registry holds a decoded FileResumeInfo while the next ones are read, so a decoded bitmap
+	// must not change when later records are decoded (roundTrip compares the held values again at
+	// the end). Every ordered pair and triple of distinct bitmaps of 0-4100 bytes.
+	seqBitmaps := [][]byte{{}, {0x00}, {0xff}, {0x01, 0x80}, {0x80, 0x01, 0x55}, bytes.Repeat([]byte{0xa5}, 64), bytes.Repeat([]byte{0x3c}, 4096), bytes.Repeat([]byte{0xc3}, 4100), big[:1<<20-1]}
+	ri := func(k int) any {
+		return transfer.FileResumeInfo{FileID: fmt.Sprintf("%016x", k+1), StreamID: uint64(k + 1), TotalChunks: uint32(8 * len(seqBitmaps[k])), Bitmap: seqBitmaps[k], LastVerifiedChunk: uint32(k), LastVerifiedHash: uint64(k) * 977}
+	}
+	for i := range seqBitmaps {
+		for j := range seqBitmaps {
+			if i == j {
+				continue
+			}
+			if mine() {
+				roundTrip([]any{ri(i), ri(j)})
+				res.Nontrivial(fmt.Sprint("HP|", i, j))
+			}
+			for k := range seqBitmaps {
+				if k == j || !mine() {
+					continue
+				}
+				roundTrip([]any{ri(i), ri(j), ri(k), nil})
+				res.Nontrivial(fmt.Sprint("HT|", i, j, k))
 			}
 		}
 	}
